@@ -17,10 +17,14 @@ os.makedirs(dst, exist_ok=True)
 for f in ["patch.diff", "demo.rs", "notes.md"]:
     shutil.copy(os.path.join(src, f), os.path.join(dst, f))
 notes = open(os.path.join(src, "notes.md")).read()
+import re
+first = notes.splitlines()[0] if notes else ""
+breaks = re.findall(r"C\d\d", first) if first.upper().startswith("BREAKS") else [prop]
+if not breaks: breaks = [prop]
 meta = {
     "id": "%s-%s" % (prop, k),
-    "breaks": [prop],
-    "source": "sub-agent that saw only the text of property %s and its own scratch worktree of /repo (nothing from /verif)" % prop,
+    "breaks": breaks,
+    "source": ("sub-agent that saw only the text of property %s and its own scratch worktree of /repo (nothing from /verif)" % prop) if prop.startswith("C") else "round-2 sub-agent that saw the texts of properties C01-C19, a focus area of the code and its own scratch worktree of /repo (nothing from /verif)",
     "needs_to_manifest": notes[:1200],
     "verified_by_me": {
         "demo_mode": mode,
